@@ -222,6 +222,33 @@ def gen_misc(seed, n):
         if i % 3 == 0:
             dl = J.calculate_delta(Epoch(t))
             yield {"k": "jdelta", "tf": t, "delta": fx(float(dl[0])), "tau": fx(float(dl[1])), "len": len(dl)}
+        # Galilean satellites: the chain of rotations to apparent coordinates is rigid; differential light time and perspective
+        if i % 3 == 1:
+            X, Y, Z = [rng.uniform(-30, 30) for _ in range(3)]
+            om, ps, inc = rng.uniform(0, 360), rng.uniform(0, 360), rng.uniform(0, 5)
+            l0, b0, D = rng.uniform(0, 6.28), rng.uniform(-0.1, 0.1), rng.uniform(-0.5, 0.5)
+            ev = {"k": "jrot", "in": [t, X, Y, Z, om, ps, inc, l0, b0, D], "p": F3([X, Y, Z])}
+            try:
+                ev["q"], ev["oc"] = F3([float(v) for v in J.apparent_rectangular_coordinates(Epoch(t), X, Y, Z, om, ps, inc, l0, b0, D)]), "ok"
+            except Exception as ex:
+                ev["q"], ev["oc"] = F3([0.0, 0.0, 0.0]), _oc(ex)
+            yield ev
+            isat = rng.randint(1, 4)
+            Rr = [5.9, 9.4, 15.0, 26.4][isat - 1]
+            X = rng.uniform(-Rr, Rr)
+            Z = rng.choice([1, -1]) * math.sqrt(max(0.0, Rr * Rr - X * X)) * rng.uniform(0.9, 1.0)
+            Y = rng.uniform(-1, 1)
+            dl = rng.uniform(4.0, 6.4)
+            ev = {"k": "jcorr", "in": [Rr, isat, dl, X, Y, Z], "p": F3([X, Y, Z]), "delta": fx(dl), "R": fx(Rr)}
+            try:
+                c1 = [float(v) for v in J.correct_rectangular_positions(Rr, isat, dl, X, Y, Z)]
+                c2 = [float(v) for v in J.correct_rectangular_positions(Rr, isat, dl, (X, Y, Z))]
+                c3 = [float(v) for v in J.correct_rectangular_positions(Rr, isat, dl, [X, Y, Z])]
+                ev.update(c1=F3(c1), c2=F3(c2), c3=F3(c3), oc="ok")
+            except Exception as ex:
+                z3 = F3([0.0, 0.0, 0.0])
+                ev.update(c1=z3, c2=z3, c3=z3, oc=_oc(ex))
+            yield ev
         # repr round trips
         av = rng.choice([q(rng.uniform(-360, 360)), rng.uniform(-360, 360), 0.0, 1e-7])
         ok_a = ok_e = ok_i = ok_c = 0
